@@ -30,7 +30,7 @@ class C09(Prop):
     assumptions = [
         "programs: every sequence of at most 3 (quick) / 4 (thorough) gates over the 14-gate alphabet of MC_Circuit on N=3 (named gates, generator gates, forward-map, backward-map-only and two-map gates, local and global), plus TLC-simulated random programs of length 10 (and prefixes) on N=4,5,6",
         "TLC proves on its own transcription of take() that the packing is legal and that layer order denotes the program; any legal packing recorded from the code is accepted",
-        "configurations {CliffordCircuit, Circuit} x {uncompiled, layers compiled, circuit compiled} x {original, copy, composed halves}: all of them per program in thorough, a rotating subset of 3 in quick",
+        "configurations {CliffordCircuit, Circuit} x {uncompiled, layers compiled, circuit compiled} x {original, copy, composed halves}: all 12 per program of <=3 gates in thorough, a rotating subset of 3 otherwise",
     ]
     rule = "one record per (program, configuration): recorded layer layout plus forward / gate-by-gate / backward images of a map probe, a phased list probe and a signed state probe"
 
@@ -55,7 +55,9 @@ class C09(Prop):
             if any(i > 14 for i in ids) or not ids:
                 continue
             k += 1
-            cfgs = CONFIGS if thorough else [CONFIGS[(k * 5 + t * 4) % len(CONFIGS)] for t in range(3)]
+            # thorough: every configuration for programs up to 3 gates, a rotating subset of 3 for the 65k programs of 4 gates
+            full = thorough and len(ids) <= 3
+            cfgs = CONFIGS if full else [CONFIGS[(k * 5 + t * 4) % len(CONFIGS)] for t in range(3)]
             for c in cfgs:
                 yield {"k": "circuit", "ids": ids, "cfg": list(c), "pkg": "py", "model_layout": lay}
             if k % (4 if thorough else 9) == 0:
